@@ -228,6 +228,16 @@ def run_sampled(case, out):
                             out.fail("c19.suggest_limit_dropped_closer_term", {"word": w, "sug": sug, "closer": sorted(closer)[:5]})
             if hard(out):
                 return
+        # terms_within() hands out lazy iterators: two of them, started before either is consumed, are independent
+        if len(case["words"]) >= 2:
+            w1, w2 = case["words"][0], case["words"][1]
+            for name, r in readers.items():
+                alone1, alone2 = sorted(r.terms_within("t", w1, d, prefix=p)), sorted(r.terms_within("t", w2, d, prefix=p))
+                g1, g2 = r.terms_within("t", w1, d, prefix=p), r.terms_within("t", w2, d, prefix=p)
+                both2, both1 = sorted(g2), sorted(g1)
+                if both1 != alone1 or both2 != alone2:
+                    out.fail("c19.terms_within_iterators_interfere:%s" % name,
+                             {"words": [w1, w2], "d": d, "p": p, "alone": [alone1[:8], alone2[:8]], "together": [both1[:8], both2[:8]]})
         # correct_query(): words that are terms of the index stay; every other word is replaced by an existing term
         # within the distance that shares the required prefix (the best suggestion), or stays when there is none
         ws = [w for w in dict.fromkeys(case["words"]) if w]
